@@ -51,7 +51,7 @@ from contextlib import contextmanager
 from pathlib import Path
 from typing import TYPE_CHECKING, Any
 
-from .errors import CommitError, HookError
+from .errors import CommitError, HookError, NotTreeError
 from .objects import Blob, Commit, ObjectID, Tag, Tree
 
 if TYPE_CHECKING:
@@ -482,9 +482,10 @@ class WorkTree:
                 tree_entry = tree.lookup_path(
                     self._repo.object_store.__getitem__, tree_path
                 )
-            except KeyError:
-                # if tree_entry didn't exist, this file was being added, so
-                # remove index entry
+            except (KeyError, NotTreeError):
+                # if tree_entry didn't exist (possibly because a file sits
+                # where the path has a directory), this file was being added,
+                # so remove index entry
                 try:
                     del index[tree_path]
                     continue
